@@ -56,14 +56,14 @@ def register(claim, na):
           "bounded-exhaustive enumeration of configuration graphs (sharing, cycles, pre/init tasks anywhere) x {instance(), fromParameters}",
           "Instrumented universe classes log __post_init__ (with which parameters are readable) and execute; for every description and both routes: "
           "runtime object graph isomorphic to the description, one object per configuration, __post_init__ once per object after its parameters, "
-          "each pre-task executed once, init tasks once, in order, after the pre-tasks.",
+          "each pre-task executed once, init tasks once, in order, after the pre-tasks. The universe contains user classes whose objects are falsy (__len__ / __bool__).",
           G_NOTE, "DESIGN.md 3/C13")
     claim("C14", "G", "exploration",
           "bounded-exhaustive enumeration of configuration graphs x {seal, submit} x every node x every mutation attempt",
           "After seal() or a DRY_RUN submit, every assignment of a type-correct value to every parameter of every reachable node (through lists, dicts, "
           "task outputs, pre/init tasks, cycles), set_meta and add_pretasks must raise; identifiers of all nodes and the job directory are re-read after "
           "every attempt and must not move. Also after an aborted first sealing attempt and for a task first instantiated in a directory context of "
-          "its own; the complete value table (generated paths included) of configurations sealed earlier (upstream tasks) must not be changed by a later submission.",
+          "its own; the complete value table (generated paths included) of configurations sealed earlier (upstream tasks) must not be changed by a later submission. The same operations applied to a copyconfig() of every frozen node must leave the original (values, pre-tasks, init tasks, meta flag, identifiers) untouched.",
           G_NOTE, "DESIGN.md 3/C14")
     claim("C17", "G", "exploration",
           "bounded-exhaustive enumeration of task graphs with generated-path parameters at every position, submitted twice",
@@ -84,7 +84,7 @@ def register(claim, na):
           "nodes and failing subsets are run under every schedule within the deviation bound from 2-3 default policies; at each launch event every "
           "ancestor from the scenario description must already have exited with 0. Static half (Engine G): job.dependencies after a DRY_RUN submit "
           "equals the reference upstream set for every task description within (N,k). Plus late-join scenarios (dependencies partly over at submission, "
-          "all pairs of embedding kinds, both iteration orders of the dependency sets), carry-over of task objects between experiments and job-process deaths.",
+          "all pairs of embedding kinds, both iteration orders of the dependency sets), carry-over of task objects between experiments, job-process deaths, and a task that defines task_outputs used as a task-typed value itself (directly, in containers, through pre/init tasks).",
           W_NOTE, "DESIGN.md 2.2, 3/C04")
     claim("C05", "W", "model_checking", W_TECH,
           "Submission histories (duplicates at every position, second experiment with the success marker present, re-submission after failure), two "
@@ -108,11 +108,11 @@ def register(claim, na):
     claim("C08", "W", "model_checking", W_TECH,
           "Seven (capacity; requests) workloads, failing holder, chain/fork under a token, two tokens, file and process tokens, two simulated processes "
           "sharing the token directory (fine-grained points, 17 default policies incl. process priorities, long preemptions): at every launch and every token-file creation of every execution the held amount must "
-          "not exceed the capacity (per token directory: a token defined again by a nested experiment is the same token).",
+          "not exceed the capacity (per token directory: a token defined again by a nested experiment is the same token). Plus a holder that fails or is killed (stale pid file) and is launched again while a second process has jobs on the token: every kill point, long preemptions after the kill.",
           W_NOTE, "DESIGN.md 3/C08")
     claim("C09", "W", "model_checking", W_TECH,
           "The C08 workloads: at the quiescent end of every execution no hang (a fitting waiting job was launched), no token file left, available == "
-          "total in every live process, no observer/watcher thread died. Scheduler death while tokens are held is explored by C11's kill enumeration.",
+          "total in every live process, no observer/watcher thread died. The same named token used by consecutive experiments of one process (the real SchedulerCentral.run/stop are executed on the virtual loop); a failed / killed holder launched again. Scheduler death while tokens are held is explored by C11's kill enumeration.",
           W_NOTE, "DESIGN.md 3/C09")
 
     claim("C11", "W", "fault_enumeration",
@@ -139,7 +139,7 @@ def register(claim, na):
           "SIGINT (thorough: SIGHUP) delivered at every line event of run.py, the generated script and the task body; successor states are explored "
           "breadth-first until no new state appears; three task variants. Checked on every transition: success marker only after a completed body, "
           "lock free after death, relaunch runs the body iff no success marker, TERM/INT inside the body leave a failure marker and no success marker, "
-          "a run that ended on its own leaves no pid file. Overlapping launches: pairs and triples of real TaskRunner processes on one job directory (see C05).",
+          "a run that ended on its own leaves no pid file. Fault dimension: each call of TaskRunner into experimaestro.notifications raises once (thorough: combined with every signal at every line). Overlapping launches: pairs and triples of real TaskRunner processes on one job directory (see C05).",
           "Crash points are Python line events (a signal between two lines behaves as at the next line). The pid file is written by the harness before "
           "every launch (the scheduler writes it right after the spawn). Fork-server launch instead of a fresh interpreter.", "DESIGN.md 2.3, 3/C10")
 
